@@ -2,7 +2,7 @@
     KeyIDs.  Only property theorems here, each closed by [exact <lemma>] and
     followed by [Print Assumptions]. The model is [Model.KeyId] over the tables
     regenerated from keyid/keyid.go ([Generated.KeyIdGen]). *)
-From Verif Require Import Lib.Base Lib.Json Generated.KeyIdGen Model.KeyId Proofs.KeyIdProofs.
+From Verif Require Import Lib.Base Lib.Json Generated.KeyIdGen Model.KeyId Proofs.KeyIdProofs Generated.KeyIdFnGen Proofs.KeyIdFnProofs.
 
 (** The code's required-field table and version table are exactly the ones the
     property speaks about (re-checked against the regenerated tables). *)
@@ -45,6 +45,14 @@ Print Assumptions c05_unmarshal_sound.
 Theorem c05_unmarshal_then_marshal : forall t k, unmarshal t = Ok k -> is_ok (marshal k) = true.
 Proof. exact unmarshal_then_marshal. Qed.
 Print Assumptions c05_unmarshal_then_marshal.
+
+(** The sanity checkers translated from keyid.go's AST on this run (Go ->
+    Gallina, [Generated.KeyIdFnGen]) equal the property's consistency predicate
+    for every KeyID (when the translator recognises the source shape). *)
+Theorem c05_go_sanity :
+  sanity_go_recognised = true -> forall k, sanity_v1_go k = consistent_spec k.
+Proof. exact sanity_v1_go_consistent. Qed.
+Print Assumptions c05_go_sanity.
 
 (** Non-vacuity: a consistent in-range KeyID with every field non-default
     round-trips; an inconsistent one and an unsupported version are refused;
